@@ -470,4 +470,50 @@ theorem newFromBatchAppend_verifies [DecidableEq D] (dflt : D) (old : Acc D) (le
   rw [hps] at h1 h2 h3
   exact ⟨_, paths, h3, h1, h2⟩
 
+/-! ### the generated proof is the honest proof of the specification -/
+
+theorem dgs_sub_sibBlks (g : Nat → D) : ∀ (u l j : Nat),
+    dgs (fun l j => sub H g l j) (sibBlks l j u) = sibPath H g l u j := by
+  intro u
+  induction u with
+  | zero => intro l j; simp [sibBlks_zero, dgs, sibPath]
+  | succ u ih =>
+    intro l j
+    rw [sibBlks_succ]
+    have := ih (l + 1) (j / 2)
+    simp only [dgs] at this
+    simp only [dgs, List.map_cons, sibPath, this]
+
+/-- on the accumulator of the first `m` leaves of a leaf list `g`, `new_from_batch_append` with the next `k` leaves
+    returns exactly `succPathsOf H g m (m + k)`: per old peak the from-scratch digests of its siblings up to the new
+    peak, in that order -/
+theorem gen_eq_honest (dflt : D) (g : Nat → D) (m k : Nat) (hn : m + k < 2 ^ 63) :
+    newFromBatchAppend H dflt ⟨m, peaks H m g⟩ ((List.range k).map (fun i => g (m + i)))
+      = some (succPathsOf H g m (m + k)) := by
+  have hlen : ((List.range k).map (fun i => g (m + i))).length = k := by simp
+  have hps : dpeaks (fun l j => sub H g l j) m = peaks H m g := by
+    rw [peaks_eq_map]; unfold dpeaks peakBlk; rw [List.map_map]; rfl
+  have := gen_spec H dflt (fun l j => sub H g l j) m ((List.range k).map (fun i => g (m + i)))
+    (by rw [hlen]; exact hn) (fun l j _ => by simp only [sub]) (fun i x hx => by
+      rw [List.getElem?_map] at hx
+      by_cases hi : i < k
+      · rw [List.getElem?_range hi] at hx
+        simp only [Option.map_some, Option.some.injEq] at hx
+        rw [← hx]; rfl
+      · rw [List.getElem?_eq_none (by simp; omega)] at hx; cases hx)
+  rw [hps, hlen] at this
+  rw [this]
+  congr 1
+  unfold succPathsOf peakBlk
+  rw [List.map_map]
+  congr 1
+  apply List.map_congr_left
+  intro p hp
+  have hd := (peakPos_mem m p hp).1
+  simp only [Function.comp]
+  rw [dgs_sub_sibBlks]
+  congr 1
+  unfold upLen
+  rw [Nat.div_mul_cancel hd]
+
 end TF.MmrE
